@@ -45,6 +45,10 @@ class PathEnd(Exception):
     pass
 
 
+class PathLimit(RuntimeError):
+    pass
+
+
 class Unmodelled(Exception):
     """raised by a summary that meets a value it has no model for: the call is then havocked like an unknown callee"""
 
@@ -450,10 +454,12 @@ class Exec:
             st.heap[loc][n] = v
         st.frames.append({'fn': fn, 'locals': loc, 'bb': 0, 'ret_to': ret_to, 'visits': {}})
 
-    def run(self, st0):
-        """explore all paths; returns list of finished states"""
+    def run(self, st0, max_paths=None):
+        """explore all paths; returns list of finished states (PathLimit when more than max_paths are open or finished)"""
         work = [st0]; done = []
         while work:
+            if max_paths is not None and len(work) + len(done) > max_paths:
+                raise PathLimit(f'more than {max_paths} paths')
             st = work.pop()
             try:
                 succ = self.step_block(st)
